@@ -756,6 +756,8 @@ func numVal(v Val) float64 {
 func buildNum[T int | int64 | int32 | float64 | float32](e *Engine, n *Node, s *z.NumberSchema[T], conv func(Val) T, param func(TestSpec) T) z.ZogSchema {
 	if n.Req {
 		s.Required(reqOpts(n)...)
+	} else if n.OptCall && n.Catch != nil {
+		s.Required().Catch(conv(*n.Catch) + 1).Optional() // builder calls in any order: the state after the last call counts
 	} else if n.OptCall {
 		s.Required().Optional() // the later call counts
 	}
@@ -763,6 +765,9 @@ func buildNum[T int | int64 | int32 | float64 | float32](e *Engine, n *Node, s *
 		s.Default(conv(*n.Def))
 	}
 	if n.Catch != nil {
+		if n.Req && len(n.Tests)%2 == 1 {
+			s.Catch(conv(*n.Catch) + 1) // replaced by the next call
+		}
 		s.Catch(conv(*n.Catch))
 	}
 	for i, t := range n.Tests {
@@ -843,6 +848,8 @@ func valStringsAs[T ~string](l []Val) []T {
 func buildStr[T ~string](e *Engine, n *Node, s *z.StringSchema[T]) z.ZogSchema {
 	if n.Req {
 		s.Required(reqOpts(n)...)
+	} else if n.OptCall && n.Catch != nil {
+		s.Required().Catch(T("zz_replaced")).Optional() // builder calls in any order: the state after the last call counts
 	} else if n.OptCall {
 		s.Required().Optional() // the later call counts
 	}
@@ -850,6 +857,9 @@ func buildStr[T ~string](e *Engine, n *Node, s *z.StringSchema[T]) z.ZogSchema {
 		s.Default(T(n.Def.S))
 	}
 	if n.Catch != nil {
+		if n.Req && len(n.Tests)%2 == 1 {
+			s.Catch(T("zz_replaced")) // replaced by the next call
+		}
 		s.Catch(T(n.Catch.S))
 	}
 	for i, t := range n.Tests {
@@ -1002,6 +1012,8 @@ func (e *Engine) Build(n *Node) z.ZogSchema {
 		s := z.Bool(e.coercerOpts(n)...)
 		if n.Req {
 			s.Required(reqOpts(n)...)
+		} else if n.OptCall && n.Catch != nil {
+			s.Required().Catch(!n.Catch.B).Optional() // builder calls in any order: the state after the last call counts
 		} else if n.OptCall {
 			s.Required().Optional() // the later call counts
 		}
@@ -1009,6 +1021,9 @@ func (e *Engine) Build(n *Node) z.ZogSchema {
 			s.Default(n.Def.B)
 		}
 		if n.Catch != nil {
+			if n.Req && len(n.Tests)%2 == 1 {
+				s.Catch(!n.Catch.B) // replaced by the next call
+			}
 			s.Catch(n.Catch.B)
 		}
 		for i, t := range n.Tests {
